@@ -109,6 +109,9 @@ impl Op {
 pub struct W18 {
     pub app: App, pub codes: Codes, pub collector: Addr, pub factory: Addr, pub vault_factory: Addr, pub cw20: Addr,
     pub pairs: Vec<Addr>, pub trios: Vec<Addr>, pub vaults: Vec<Addr>, pub dists: Vec<Addr>, pub lairs: Vec<Addr>, pub colls: Vec<Addr>,
+    /// number of update messages sent so far: every update also carries (count % 3 = 1) a switch turned off / (= 2) turned on again in
+    /// the same message - the bounds on what is stored do not depend on the switches (the model has no switch)
+    pub upd: u64,
 }
 
 pub fn world18() -> W18 {
@@ -122,7 +125,7 @@ pub fn world18() -> W18 {
             denom: d.to_string(), decimals: 6 }, &[cosmwasm_std::coin(1, *d)]).unwrap();
     }
     let vault_factory = inst_vault_factory(&mut app, &codes, ADMIN, ADMIN, collector.as_str()).unwrap();
-    W18 { app, codes, collector, factory, vault_factory, cw20, pairs: vec![], trios: vec![], vaults: vec![], dists: vec![], lairs: vec![], colls: vec![] }
+    W18 { app, codes, collector, factory, vault_factory, cw20, pairs: vec![], trios: vec![], vaults: vec![], dists: vec![], lairs: vec![], colls: vec![], upd: 0 }
 }
 
 fn sender(who: u8) -> Addr { Addr::unchecked(if who == 0 || who == 1 { ADMIN } else { STRANGER }) }
@@ -201,15 +204,18 @@ impl W18 {
                 true
             }
             Op::PairUpd { who, i, f } => {
+                self.upd += 1;
+                let ft = match self.upd % 3 { 1 => Some(white_whale_std::pool_network::pair::FeatureToggle { withdrawals_enabled: true, deposits_enabled: true, swaps_enabled: false }),
+                                              2 => Some(white_whale_std::pool_network::pair::FeatureToggle { withdrawals_enabled: true, deposits_enabled: true, swaps_enabled: true }), _ => None };
                 let target = self.pairs[i].clone();
                 let fees = f.map(|f| pool_fee(f.0, f.1, f.2));
                 let fac = self.factory.clone();
                 let r = if who == 0 || who == 2 {
                     catch(|| self.app.execute_contract(sender(who), target.clone(), &white_whale_std::pool_network::pair::ExecuteMsg::UpdateConfig {
-                        owner: None, fee_collector_addr: None, pool_fees: fees.clone(), feature_toggle: None }, &[]))
+                        owner: None, fee_collector_addr: None, pool_fees: fees.clone(), feature_toggle: ft.clone() }, &[]))
                 } else {
                     catch(|| self.app.execute_contract(sender(who), fac.clone(), &white_whale_std::pool_network::factory::ExecuteMsg::UpdatePairConfig {
-                        pair_addr: target.to_string(), owner: None, fee_collector_addr: None, pool_fees: fees.clone(), feature_toggle: None }, &[]))
+                        pair_addr: target.to_string(), owner: None, fee_collector_addr: None, pool_fees: fees.clone(), feature_toggle: ft.clone() }, &[]))
                 };
                 r.is_some()
             }
@@ -228,16 +234,19 @@ impl W18 {
                 true
             }
             Op::TrioUpd { who, i, f, ramp } => {
+                self.upd += 1;
+                let ft = match self.upd % 3 { 1 => Some(white_whale_std::pool_network::trio::FeatureToggle { withdrawals_enabled: true, deposits_enabled: true, swaps_enabled: false }),
+                                              2 => Some(white_whale_std::pool_network::trio::FeatureToggle { withdrawals_enabled: true, deposits_enabled: true, swaps_enabled: true }), _ => None };
                 let target = self.trios[i].clone();
                 let fees = f.map(|f| trio_fee(f.0, f.1, f.2));
                 let amp = ramp.map(|(a, b)| RampAmp { future_a: a, future_block: b });
                 let fac = self.factory.clone();
                 let r = if who == 0 || who == 2 {
                     catch(|| self.app.execute_contract(sender(who), target.clone(), &white_whale_std::pool_network::trio::ExecuteMsg::UpdateConfig {
-                        owner: None, fee_collector_addr: None, pool_fees: fees.clone(), feature_toggle: None, amp_factor: amp.clone() }, &[]))
+                        owner: None, fee_collector_addr: None, pool_fees: fees.clone(), feature_toggle: ft.clone(), amp_factor: amp.clone() }, &[]))
                 } else {
                     catch(|| self.app.execute_contract(sender(who), fac.clone(), &white_whale_std::pool_network::factory::ExecuteMsg::UpdateTrioConfig {
-                        trio_addr: target.to_string(), owner: None, fee_collector_addr: None, pool_fees: fees.clone(), feature_toggle: None, amp_factor: amp.clone() }, &[]))
+                        trio_addr: target.to_string(), owner: None, fee_collector_addr: None, pool_fees: fees.clone(), feature_toggle: ft.clone(), amp_factor: amp.clone() }, &[]))
                 };
                 r.is_some()
             }
@@ -256,8 +265,10 @@ impl W18 {
                 true
             }
             Op::VaultUpd { who, i, f } => {
+                self.upd += 1;
+                let sw = match self.upd % 3 { 1 => Some(false), 2 => Some(true), _ => None };
                 let target = self.vaults[i].clone();
-                let params = white_whale_std::vault_network::vault::UpdateConfigParams { flash_loan_enabled: None, deposit_enabled: None, withdraw_enabled: None,
+                let params = white_whale_std::vault_network::vault::UpdateConfigParams { flash_loan_enabled: sw, deposit_enabled: None, withdraw_enabled: None,
                     new_owner: None, new_vault_fees: f.map(|f| vault_fee(f.0, f.1, f.2)), new_fee_collector_addr: None };
                 let fac = self.vault_factory.clone();
                 let r = if who == 0 || who == 2 {
@@ -293,10 +304,12 @@ impl W18 {
                 match catch(|| inst_collector(&mut self.app, &c, ADMIN)) { Some(a) => { self.colls.push(a); true } None => false }
             }
             Op::CollUpd { who, i, rate } => {
+                self.upd += 1;
+                let sw = match self.upd % 3 { 1 => Some(false), 2 => Some(true), _ => None };
                 let target = self.colls[i].clone();
                 catch(|| self.app.execute_contract(sender(who), target.clone(), &white_whale_std::fee_collector::ExecuteMsg::UpdateConfig {
                     owner: None, pool_router: None, fee_distributor: None, pool_factory: None, vault_factory: None,
-                    take_rate: rate.map(crate::world::dec), take_rate_dao_address: None, is_take_rate_active: None }, &[])).is_some()
+                    take_rate: rate.map(crate::world::dec), take_rate_dao_address: None, is_take_rate_active: sw }, &[])).is_some()
             }
         }
     }
